@@ -14,6 +14,7 @@ mod datetime;
 mod pae;
 mod rules;
 mod cjson;
+mod signed;
 
 pub fn err_name(e: &in_toto::Error) -> String {
     let d = format!("{:?}", e);
@@ -64,6 +65,7 @@ fn main() {
             "pae" => pae::run(sc),
             "rules" => rules::run(sc),
             "cjson" => cjson::run(sc),
+            "signed_bytes" => signed::run(sc),
             _ => json!({"outcome": "unsupported-kind"}),
         });
         out.push(r);
